@@ -344,6 +344,9 @@ class SolverActor:
             pshare = self.spec.get("problem_obj")
             if pshare and pshare in w.shared_problems:
                 self.problem = w.shared_problems[pshare]
+                have = ([float(v) for v in self.problem.lowerBoundOfFloatVariables], [float(v) for v in self.problem.upperBoundOfFloatVariables])
+                if have != (self.lower, self.upper):
+                    raise HarnessError("inconsistent plan: %s expects the shared Problem's box to be %r, it is %r" % (self.aid, (self.lower, self.upper), have))
                 w.fired["solver_on_shared_problem_object"] += 1
             elif pshare:
                 self.problem = w.shared_problems[pshare] = SharedSimProblem(self, w)
@@ -1122,7 +1125,9 @@ class World:
                 pb = a.problem
                 for name, vals in (("lowerBoundOfFloatVariables", op["lower"]), ("upperBoundOfFloatVariables", op["upper"])):
                     cur = getattr(pb, name)
-                    if isinstance(cur, np.ndarray) and cur.dtype == np.float64:
+                    if op.get("rebind"):
+                        setattr(pb, name, np.array(vals, dtype=np.double))      # new arrays assigned to the public fields
+                    elif isinstance(cur, np.ndarray) and cur.dtype == np.float64:
                         cur[:] = vals
                     else:
                         setattr(pb, name, type(cur)(vals) if isinstance(cur, list) else vals)
